@@ -105,8 +105,8 @@ impl Layout {
     /// Constrain surface by the layout, that is create sub-subsurface view
     /// with offset `pos` and size of `size`.
     pub fn apply_to<'a>(&self, surf: TerminalSurface<'a>) -> TerminalSurface<'a> {
-        let rows = self.pos.row..self.pos.row + self.size.height;
-        let cols = self.pos.col..self.pos.col + self.size.width;
+        let rows = self.pos.row..self.pos.row.saturating_add(self.size.height);
+        let cols = self.pos.col..self.pos.col.saturating_add(self.size.width);
         let (shape, data) = surf.parts();
         SurfaceMutView::new(shape.view(rows, cols), data)
     }
@@ -242,9 +242,9 @@ impl<'a> Iterator for FindPath<'a> {
         while let Some(child_id) = child_id_opt {
             let child = &self.store[child_id.0].value;
             if child.pos.col <= self.pos.col
-                && self.pos.col < child.pos.col + child.size.width
+                && self.pos.col < child.pos.col.saturating_add(child.size.width)
                 && child.pos.row <= self.pos.row
-                && self.pos.row < child.pos.row + child.size.height
+                && self.pos.row < child.pos.row.saturating_add(child.size.height)
             {
                 self.pos = Position {
                     row: self.pos.row - child.pos.row,
